@@ -245,6 +245,12 @@ class GradSampleModule(AbstractGradSampleModule):
             if hasattr(module, "ft_compute_sample_grad"):
                 delattr(module, "ft_compute_sample_grad")
 
+        # Remove what the forward / backward hooks attached to the layers
+        for module in self._module.modules():
+            for attr in ("activations", "max_batch_len"):
+                if hasattr(module, attr):
+                    delattr(module, attr)
+
     def disable_hooks(self) -> None:
         r"""
         Globally disable all hooks installed by this library.
